@@ -106,8 +106,11 @@ def planted_input(rng: random.Random):
     ref = {"id": rng.choice([1, 4, 17]), "len": dx[-1] + rng.randint(10, 300000), "x": dx, "bp": xs}
     qrys = []
     qid = rng.randint(1, 30)
-    for _ in range(8):
+    for nq in range(8):
         w = rng.randint(15, 45)
+        if nq == 7 and n >= 190 and dense is None and dup is None and pal is None:
+            w = rng.randint(150, n - 12)       # "at least 15" has no upper end: a molecule of 150+ labels (more than 255
+            #                                    seeding bins set: counts that no longer fit into a byte)
         if n - w - 8 < 4:
             w = 15
         w0 = rng.choice([4, 4, 5, n - w - 4, rng.randint(4, n - w - 4), rng.randint(4, n - w - 4)])
